@@ -115,6 +115,8 @@ Accounting == ~st.bad =>
     LET done == SumTo(Len(st.out))
         pend == Len(st.partial) + (IF st.size # 0 THEN P ELSE 0) + (IF st.hasbuf THEN Len(st.buf) ELSE 0)
     IN done + pend + Len(st.block) = st.delivered
+\* the `while len(block):` loop terminates: every iteration consumes at least one byte of the chunk (or flags the stream)
+Progress == [][(st.block # <<>> /\ ~st.bad) => (st'.bad \/ Len(st'.block) < Len(st.block))]_vars
 FinalOK == (st.delivered = Total /\ st.block = <<>>) =>
              (st.out = Expected /\ st.size = 0 /\ st.partial = <<>> /\ ~st.hasbuf)
 
